@@ -379,6 +379,13 @@ func rowTotals(item *data_model.MultiItem) totals {
 
 func cntOf(vals map[TU]data_model.ItemValue, k TU) float64 { v := vals[k]; return v.Count() }
 
+func mix(a, b uint64) uint64 {
+	z := a ^ (b+0x9E3779B97F4A7C15)*0xBF58476D1CE4E5B9
+	z = (z ^ (z >> 30)) * 0xBF58476D1CE4E5B9
+	z = (z ^ (z >> 27)) * 0x94D049BB133111EB
+	return z ^ (z >> 31)
+}
+
 func nkOf(t tg) TU {
 	k := t.tu()
 	k.Normalize()
@@ -400,10 +407,18 @@ type histResult struct {
 	tworaw   bool
 }
 
-func sortedKeys(m map[TU]*data_model.MultiValue) []TU {
-	ks := make([]TU, 0, len(m))
-	for k := range m {
-		ks = append(ks, k)
+// copies keys (cloned strings) and values by ranging over the map: no lookups, so it also works on a map whose keys a
+// defective implementation has corrupted
+func snapshotTop(m map[TU]*data_model.MultiValue) ([]TU, map[TU]data_model.ItemValue) {
+	vals := map[TU]data_model.ItemValue{}
+	var ks []TU
+	for k, v := range m {
+		kc := TU{I: k.I, S: strings.Clone(k.S)}
+		if _, dup := vals[kc]; dup {
+			continue
+		}
+		vals[kc] = v.Value
+		ks = append(ks, kc)
 	}
 	sort.Slice(ks, func(i, j int) bool {
 		if ks[i].I != ks[j].I {
@@ -411,7 +426,7 @@ func sortedKeys(m map[TU]*data_model.MultiValue) []TU {
 		}
 		return ks[i].S < ks[j].S
 	})
-	return ks
+	return ks, vals
 }
 
 func runHistory(seed uint64, ops []hop) *histResult {
@@ -420,7 +435,28 @@ func runHistory(seed uint64, ops []hop) *histResult {
 	rng := rand.New(seed)
 	start := *rng
 	var want totals
+	proto := int(mix(seed, 12345) % 5)
+	if proto > 2 {
+		proto = 1 + proto%2
+	}
+	scratch := make([]byte, 0, 32)
+	packet := make([]byte, 64)
+	written := map[TU]bool{} // every (normalised) non-empty tag an event was written with
+	var writtenNames []string
 	fail := func(oracle, what string) { res.fails = append(res.fails, failure{oracle, what}) }
+	checkKeys := func(at int) {
+		seen := map[string]bool{}
+		for k := range item.Top {
+			g := fmt.Sprintf("%d:%q", k.I, k.S)
+			if seen[g] {
+				fail("top_keys_distinct", fmt.Sprintf("after op %d: Top holds two entries with key %s", at, g))
+			}
+			seen[g] = true
+			if !written[TU{I: k.I, S: strings.Clone(k.S)}] {
+				fail("top_keys_are_written_values", fmt.Sprintf("after op %d: Top holds key %s, which is not a value that was written", at, g))
+			}
+		}
+	}
 	checkConserve := func(oracle string, at int) {
 		got := rowTotals(item)
 		if got.cnt != want.cnt || got.sum != want.sum || got.sq != want.sq || got.any != want.any ||
@@ -432,19 +468,58 @@ func runHistory(seed uint64, ops []hop) *histResult {
 	for idx, op := range ops {
 		switch op.kind {
 		case opEvent:
-			vals := map[TU]data_model.ItemValue{}
-			var keys []TU
-			for _, k := range sortedKeys(item.Top) {
-				vals[k] = item.Top[k].Value
-				keys = append(keys, k)
-			}
+			keys, vals := snapshotTop(item.Top)
 			sflBefore := item.VerifStringTopSFL()
 			rngBefore := *rng
 			tailBefore := item.Tail.Value
 			var mv *data_model.MultiValue
 			if op.bytes {
-				mv = item.MapStringTopBytes(rng, op.cap, data_model.TagUnionBytes{I: op.tag.i, S: []byte(op.tag.str())}, op.ev.c)
+				// caller protocols of the []byte API: a fresh slice, ONE scratch buffer reused for every value, or a
+				// sub-slice of a larger packet buffer; reused buffers are overwritten right after the call, as a real
+				// caller (TL request buffer, ingestion-status scratch) does before the next value
+				name := op.tag.str()
+				h := mix(seed, uint64(idx))
+				var arg []byte
+				switch proto {
+				case 0:
+					arg = []byte(name)
+				case 1:
+					scratch = append(scratch[:0], name...)
+					arg = scratch
+				default:
+					off := int(h>>8) % 24
+					copy(packet[off:], name)
+					arg = packet[off : off+len(name) : off+len(name)]
+				}
+				if len(name) == 0 && h&1 == 0 {
+					arg = nil
+				}
+				mv = item.MapStringTopBytes(rng, op.cap, data_model.TagUnionBytes{I: op.tag.i, S: arg}, op.ev.c)
 				res.kinds["bytes-variant"] = true
+				if proto != 0 { // the buffer now holds something else: another value's bytes, or garbage
+					res.kinds[fmt.Sprintf("bytes-buffer-reused/proto%d", proto)] = true
+					fill := []byte("xxxxxxxxxxxxxxxx")
+					switch (h >> 16) % 4 {
+					case 0:
+						if len(writtenNames) > 0 {
+							fill = []byte(writtenNames[int(h>>20)%len(writtenNames)] + "t1t2t3t4t5t6t7t8")
+						}
+					case 1:
+						fill = make([]byte, 16)
+					case 2:
+						fill = []byte("t9t8t7t6t5t4t3t2t1")
+					}
+					if proto == 1 {
+						scratch = scratch[:cap(scratch)]
+						for i := range scratch {
+							scratch[i] = fill[i%len(fill)]
+						}
+					} else {
+						for i := range packet {
+							packet[i] = fill[i%len(fill)]
+						}
+					}
+				}
 			} else {
 				mv = item.MapStringTop(rng, op.cap, op.tag.tu(), op.ev.c)
 			}
@@ -504,6 +579,12 @@ func runHistory(seed uint64, ops []hop) *histResult {
 				mv.AddCounterHost(rng, op.ev.c, hostOf(op.ev.host))
 			}
 			want.add(op.ev)
+			if !op.tag.tu().Empty() {
+				written[nkOf(op.tag)] = true
+				if n := nkOf(op.tag).S; n != "" {
+					writtenNames = append(writtenNames, n)
+				}
+			}
 			ot := make([]string, len(ords))
 			for i, o := range ords {
 				ot[i] = tuList(o)
@@ -511,12 +592,9 @@ func runHistory(seed uint64, ops []hop) *histResult {
 			res.steps = append(res.steps, fmt.Sprintf("CE %s %s %s [%s] %s %d %d", vu.Z(int64(op.cap)), op.tag.term(), op.ev.term(),
 				strings.Join(ot, ";"), vu.B(isTop), item.VerifStringTopSFL(), len(item.Top)))
 			checkConserve("top_conserves", idx)
+			checkKeys(idx)
 		case opFinish:
-			vals := map[TU]data_model.ItemValue{}
-			keys := sortedKeys(item.Top)
-			for _, k := range keys {
-				vals[k] = item.Top[k].Value
-			}
+			keys, vals := snapshotTop(item.Top)
 			tailBefore, rngBefore := item.Tail.Value, *rng
 			w := item.FinishStringTop(rng, op.cap)
 			var retained, folded []TU
@@ -563,6 +641,7 @@ func runHistory(seed uint64, ops []hop) *histResult {
 				fail("finish_conserves", fmt.Sprintf("op %d: FinishStringTop returned weight %v, events written have count %v", idx, w, want.cnt))
 			}
 			checkConserve("finish_conserves", idx)
+			checkKeys(idx)
 			if len(keys) == 0 {
 				ord = nil
 			}
@@ -572,10 +651,11 @@ func runHistory(seed uint64, ops []hop) *histResult {
 			}
 			res.steps = append(res.steps, fmt.Sprintf("CF %s %s %s %d", vu.Z(int64(op.cap)), tuList(ord), w2, len(item.Top)))
 		case opSnap:
-			ks := sortedKeys(item.Top)
+			ks, vs := snapshotTop(item.Top)
 			p := make([]string, len(ks))
 			for i, k := range ks {
-				p[i] = fmt.Sprintf("(%s,%s)", tuTerm(k), vobs(&item.Top[k].Value))
+				v := vs[k]
+				p[i] = fmt.Sprintf("(%s,%s)", tuTerm(k), vobs(&v))
 			}
 			res.steps = append(res.steps, fmt.Sprintf("CS [%s] %s %d", strings.Join(p, ";"), vobs(&item.Tail.Value), item.VerifStringTopSFL()))
 		}
@@ -595,6 +675,29 @@ func runHistory(seed uint64, ops []hop) *histResult {
 		res.raws = append(res.raws, c.Uint64())
 	}
 	return res
+}
+
+// runs one history with a watchdog: a defective implementation may loop forever (resample that cannot delete) or panic
+func runGuarded(seed uint64, ops []hop) (*histResult, string) {
+	type out struct {
+		res *histResult
+		why string
+	}
+	ch := make(chan out, 1)
+	go func() {
+		defer func() {
+			if p := recover(); p != nil {
+				ch <- out{nil, fmt.Sprintf("panic while the history was applied: %v", p)}
+			}
+		}()
+		ch <- out{runHistory(seed, ops), ""}
+	}()
+	select {
+	case o := <-ch:
+		return o.res, o.why
+	case <-time.After(30 * time.Second):
+		return nil, "the history did not complete within 30 s (a call into the row never returned)"
+	}
 }
 
 // ---------- generators ----------
@@ -632,8 +735,11 @@ func genTag(r *vu.Rng, k int) tg {
 		}
 		return tg{i: int32(k)}
 	default:
-		if r.Bool() {
+		switch r.Intn(3) {
+		case 0:
 			return tg{i: int32(k), s: 1 + r.Intn(3)} // Normalize drops the string
+		case 1:
+			return tg{s: k}
 		}
 		return tg{i: int32(k)}
 	}
@@ -659,6 +765,7 @@ func genHistory(r *vu.Rng, style int) (ops []hop, name string, capacity int) {
 	n := 6 + r.Intn(20)
 	pool := capacity + 1 + r.Intn(5)
 	varyCap := r.Chance(10)
+	bytesShare := []int{15, 50, 100}[r.Intn(3)]
 	ev := func(k int, heavy int) hop {
 		c := capacity
 		if varyCap {
@@ -668,7 +775,7 @@ func genHistory(r *vu.Rng, style int) (ops []hop, name string, capacity int) {
 		if k == 0 || r.Chance(4) {
 			t = tg{}
 		}
-		return hop{kind: opEvent, cap: c, tag: t, ev: genEvent(r, heavy), bytes: r.Chance(30)}
+		return hop{kind: opEvent, cap: c, tag: t, ev: genEvent(r, heavy), bytes: r.Chance(bytesShare)}
 	}
 	next := 1
 	switch style {
@@ -790,7 +897,11 @@ func genDefaultFull(r *vu.Rng) (ops []hop, name string, capacity int) {
 
 func histText(seed uint64, ops []hop) string {
 	var b strings.Builder
-	fmt.Fprintf(&b, "rng=%d", seed)
+	proto := int(mix(seed, 12345) % 5)
+	if proto > 2 {
+		proto = 1 + proto%2
+	}
+	fmt.Fprintf(&b, "rng=%d bytesbuf=%s", seed, []string{"fresh", "reused-scratch", "packet-subslice"}[proto])
 	lastCap := math.MinInt
 	for _, o := range ops {
 		switch o.kind {
@@ -876,7 +987,15 @@ func main() {
 			ops, name, _ = genHistory(r, style)
 		}
 		hs := r.U64()
-		res := runHistory(hs, ops)
+		text0 := histText(hs, ops)
+		res, why := runGuarded(hs, ops)
+		if res == nil {
+			// the implementation did not finish this history: a concrete failing input; the abandoned goroutine may
+			// still be spinning, so nothing more is generated
+			line := o.Case(text0, "CHist [] [0]", false, "history-not-completed")
+			o.Fail("map_string_top_terminates", line, text0+" :: "+why)
+			return
+		}
 		rs := make([]string, len(res.raws))
 		for j, x := range res.raws {
 			rs[j] = vu.ZU(x)
